@@ -326,6 +326,9 @@ func (p *Proxy) handleLoop(conn net.Conn) {
 	}
 
 	pc := newProxyConn(p, conn)
+	// The end of an intercepted TLS session is said in TLS as well: a body that is delimited by
+	// the close must not look like one that was cut.
+	defer pc.closeNotify()
 
 	if err := pc.maybeHandshakeTLS(); err != nil {
 		log.Error(context.TODO(), "failed to do TLS handshake", "error", err)
